@@ -147,6 +147,7 @@ func TestProp(t *testing.T) {
 		})
 	}
 	if env.Replay == "" {
+		runSharedTokenPairs(rep, env, ps)
 		rep.Floor("steps_served", 200)
 		rep.Floor("steps_served_after_due_check", 100)
 		rep.Floor("steps_refused_after_denial", 100)
@@ -402,4 +403,109 @@ func gapClass(g time.Duration) string {
 		return "R..L"
 	}
 	return ">L"
+}
+
+
+// runSharedTokenPairs: two browser sessions of one user that share their tokens (the same authenticator
+// session, logged in at the proxy hours apart, or a cookie copied to a second device) have checks due
+// at the same moment; the authenticator holds its answer so the two provider calls overlap and may be
+// coalesced. Each session's lifetime bound and identity must stay its own. (Added after seeded change
+// C04c - a coalesced caller receiving the leader's whole session - was missed by the one-browser
+// histories above.)
+func runSharedTokenPairs(rep *vh.Report, env vh.Env, ps *sut.ProxyStack) {
+	n := env.Pick(60, 1200)
+	vh.ForEach(n, 8, -1, func(i int) {
+		r := vh.CaseRNG(env.Seed, "c04-shared-token", i)
+		host := "dom.sso.test"
+		uid := sut.NewID()
+		email := "user" + uid + "@corp.test"
+		refreshDue := r.Intn(2) == 0
+		older := ps.Session(host, email, nil)
+		older.AccessToken, older.RefreshToken = "sat-"+uid, "srt-"+uid
+		older.ValidDeadline = time.Now().Add(-3 * time.Minute)
+		if refreshDue {
+			older.RefreshDeadline = time.Now().Add(-3 * time.Minute)
+		}
+		younger := *older
+		// the older session is close to its lifetime bound, the younger one has most of it left
+		older.LifetimeDeadline = time.Now().Add(time.Duration(20+r.Intn(90)) * time.Minute).Truncate(time.Second)
+		younger.LifetimeDeadline = time.Now().Add(time.Duration(9+r.Intn(12)) * time.Hour).Truncate(time.Second)
+		hold := make(chan struct{})
+		nt := "snt-" + uid
+		primary, key := "validate", older.AccessToken
+		if refreshDue {
+			primary, key = "refresh", older.RefreshToken
+			a := sut.RefreshOK(nt, 3600)
+			a.Hold = hold
+			ps.Auth.Set(primary, key, a)
+		} else {
+			a := sut.ValidateOK()
+			a.Hold = hold
+			ps.Auth.Set(primary, key, a)
+		}
+		defer ps.Auth.Unset(primary, key)
+		sessions := []*sessionsPair{{"older", older.LifetimeDeadline, ps.Seal(older)}, {"younger", younger.LifetimeDeadline, ps.Seal(&younger)}}
+		if r.Intn(2) == 0 {
+			sessions[0], sessions[1] = sessions[1], sessions[0]
+		}
+		type res struct {
+			who *sessionsPair
+			rs  *sut.Resp
+		}
+		out := make(chan res, 2)
+		go func() {
+			out <- res{sessions[0], ps.Client.Do(sut.Req{Host: host, Target: "/p/" + uid, Cookies: []string{ps.CookieName + "=" + sessions[0].sealed}})}
+		}()
+		overlapped := false
+		for w := 0; w < 2000; w++ {
+			if ps.Auth.MaxInflight(primary, key) >= 1 {
+				overlapped = true
+				break
+			}
+			time.Sleep(time.Millisecond)
+		}
+		go func() {
+			out <- res{sessions[1], ps.Client.Do(sut.Req{Host: host, Target: "/p/" + uid, Cookies: []string{ps.CookieName + "=" + sessions[1].sealed}})}
+		}()
+		time.Sleep(time.Duration(5+r.Intn(20)) * time.Millisecond)
+		close(hold)
+		rep.Eval()
+		for k := 0; k < 2; k++ {
+			x := <-out
+			if x.rs.Err != nil {
+				rep.Count("client_errors", 1)
+				continue
+			}
+			ps.Hits(x.rs.ID)
+			v, set, cleared := x.rs.Cookie(ps.CookieName)
+			if !set || cleared {
+				continue
+			}
+			s := ps.Open(v)
+			if s == nil {
+				continue
+			}
+			rep.Count("shared_token_reissued_cookies", 1)
+			kc := map[string]interface{}{"index": i, "session": x.who.name, "check_due": primary, "own_lifetime_deadline": x.who.lifetime.String(), "reissued_lifetime_deadline": s.LifetimeDeadline.String()}
+			if s.LifetimeDeadline.After(x.who.lifetime.Add(2 * time.Second)) {
+				rep.Violate("c04-shared-token", i, "lifetime-deadline-moved-later concurrent-session-sharing-the-token due="+primary,
+					fmt.Sprintf("the %s session's re-issued cookie carries lifetime bound %v, its own bound is %v", x.who.name, s.LifetimeDeadline, x.who.lifetime), kc)
+			}
+			if s.Email != email || s.AuthorizedUpstream != host {
+				rep.Violate("c04-shared-token", i, "reissued-cookie-changed-identity-or-binding concurrent-session-sharing-the-token", fmt.Sprintf("email %q upstream %q", s.Email, s.AuthorizedUpstream), kc)
+			}
+		}
+		if overlapped {
+			rep.Count("shared_token_pairs_overlapped", 1)
+			rep.Distinct(fmt.Sprintf("shared-token|%s|first=%s", primary, sessions[0].name))
+		}
+	})
+	rep.Floor("shared_token_pairs_overlapped", 20)
+	rep.Floor("shared_token_reissued_cookies", 40)
+}
+
+type sessionsPair struct {
+	name     string
+	lifetime time.Time
+	sealed   string
 }
